@@ -170,6 +170,8 @@ pub struct C04Case {
     /// reached the file, so the new state is visible)
     pub fsync_fault: Option<usize>,
     pub chain: Vec<usize>,
+    /// chain of a second writer thread (empty: none); its bodies must commute with `chain`
+    pub second: Vec<usize>,
     pub readers: usize,
     pub dumps: usize,
 }
@@ -187,6 +189,18 @@ impl C04Case {
             })
             .collect()
     }
+    pub fn second_specs(&self) -> Vec<Vec<OpSpec>> {
+        let menu = c04_menu();
+        self.second
+            .iter()
+            .enumerate()
+            .map(|(i, &m)| {
+                let mut v = menu[m].clone();
+                v.push(OpSpec::put(&["g"], "gen2", &format!("{}", i + 1)));
+                v
+            })
+            .collect()
+    }
 }
 
 /// Runs one schedule of a C04 case; returns the execution record and the judgement.
@@ -199,21 +213,44 @@ pub fn c04_run(case: &C04Case, base: &Base, path: &str, prefix: &[u8], policy: R
         }
     };
     let specs = case.bodies_specs();
-    let mut states = vec![base.model.clone()];
-    for s in &specs {
-        let next = model_after(states.last().unwrap(), s);
-        states.push(next);
+    let specs2 = case.second_specs();
+    // grid[j][i] = state after the first i commits of the first writer and the first j of the second
+    // (the two chains commute: checked here, a case that does not is a harness mistake)
+    let mut grid: Vec<Vec<BucketM>> = vec![];
+    for j in 0..=specs2.len() {
+        let mut row = vec![if j == 0 { base.model.clone() } else { model_after(&grid[j - 1][0], &specs2[j - 1]) }];
+        for s in &specs {
+            let next = model_after(row.last().unwrap(), s);
+            row.push(next);
+        }
+        grid.push(row);
     }
+    if !specs2.is_empty() {
+        let mut other = base.model.clone();
+        for s in &specs {
+            other = model_after(&other, s);
+        }
+        for s in &specs2 {
+            other = model_after(&other, s);
+        }
+        if !other.same_contents(&grid[specs2.len()][specs.len()]) {
+            return (ExecResult { points: vec![], deadlock: None, diverged: Some("harness: the two writer chains of this case do not commute".into()), panics: vec![] }, vec![], String::new());
+        }
+    }
+    let n1 = specs.len() + 1;
+    let states: Vec<BucketM> = grid.iter().flat_map(|r| r.iter().cloned()).collect();
+    let nwriters = if specs2.is_empty() { 1 } else { 2 };
     let commits_done = Arc::new(AtomicI64::new(0));
+    let commits_done2 = Arc::new(AtomicI64::new(0));
     let obs = Arc::new(Mutex::new(Obs::default()));
     obs.lock().unwrap().readers = (0..case.readers).map(|_| (-1, vec![])).collect();
     let mut bodies: Vec<Body> = vec![];
-    {
+    for wi in 0..nwriters {
         let db = db.clone();
-        let commits_done = commits_done.clone();
+        let commits_done = if wi == 0 { commits_done.clone() } else { commits_done2.clone() };
         let obs = obs.clone();
-        let chain_ops: Vec<&'static [Op]> = specs.iter().map(|s| leak_ops(s)).collect();
-        let fsync_fault = case.fsync_fault;
+        let chain_ops: Vec<&'static [Op]> = if wi == 0 { &specs } else { &specs2 }.iter().map(|s| leak_ops(s)).collect();
+        let fsync_fault = if wi == 0 { case.fsync_fault } else { None };
         bodies.push(Box::new(move |_ctx: &Ctx| {
             for (ci, ops) in chain_ops.into_iter().enumerate() {
                 let tx = match db.tx(true) {
@@ -264,10 +301,11 @@ pub fn c04_run(case: &C04Case, base: &Base, path: &str, prefix: &[u8], policy: R
     for ri in 0..case.readers {
         let db = db.clone();
         let commits_done = commits_done.clone();
+        let commits_done2 = commits_done2.clone();
         let obs = obs.clone();
         let dumps = case.dumps;
         bodies.push(Box::new(move |ctx: &Ctx| {
-            let c0 = commits_done.load(Ordering::SeqCst);
+            let c0 = commits_done.load(Ordering::SeqCst) + 1000 * commits_done2.load(Ordering::SeqCst);
             let tx = match db.tx(false) {
                 Ok(tx) => tx,
                 Err(e) => {
@@ -293,7 +331,7 @@ pub fn c04_run(case: &C04Case, base: &Base, path: &str, prefix: &[u8], policy: R
         js.push(Judgement { class: "deadlock".into(), detail: d.clone() });
     }
     for (t, p) in &res.panics {
-        js.push(Judgement { class: crate::runner::panic_class(if *t == 0 { "writer_panic" } else { "reader_panic" }, p), detail: format!("thread {} panicked: {}", t, p) });
+        js.push(Judgement { class: crate::runner::panic_class(if *t < nwriters { "writer_panic" } else { "reader_panic" }, p), detail: format!("thread {} panicked: {}", t, p) });
     }
     let o = obs.lock().unwrap();
     for e in &o.errors {
@@ -310,18 +348,20 @@ pub fn c04_run(case: &C04Case, base: &Base, path: &str, prefix: &[u8], policy: R
                     }
                     Ok(m) => {
                         let j = states.iter().position(|s| s.same_contents(m));
+                        let (c1, c2) = (*c0 % 1000, *c0 / 1000);
+                        let name = |j: usize| if nwriters == 1 { format!("S{}", j) } else { format!("S({},{})", j % n1, j / n1) };
                         match j {
                             None => {
-                                js.push(Judgement { class: "reader_no_committed_state".into(), detail: format!("reader {} (began after {} commits) dump {} equals no committed state; vs S{}: {}", ri, c0, di, c0, m.diff(&states[(*c0).max(0) as usize]).unwrap_or_default()) });
+                                js.push(Judgement { class: "reader_no_committed_state".into(), detail: format!("reader {} (began after {}+{} commits) dump {} equals no committed state; vs the state at its begin: {}", ri, c1, c2, di, m.diff(&grid[c2.max(0) as usize][c1.max(0) as usize]).unwrap_or_default()) });
                                 break;
                             }
                             Some(j) => {
-                                if (j as i64) < *c0 {
-                                    js.push(Judgement { class: "reader_stale".into(), detail: format!("reader {} began after {} commits had completed but sees state S{}", ri, c0, j) });
+                                if ((j % n1) as i64) < c1 || ((j / n1) as i64) < c2 {
+                                    js.push(Judgement { class: "reader_stale".into(), detail: format!("reader {} began after {}+{} commits had completed but sees state {}", ri, c1, c2, name(j)) });
                                 }
                                 if let Some(prev) = seen {
                                     if prev != j {
-                                        js.push(Judgement { class: "reader_snapshot_changed".into(), detail: format!("reader {} saw S{} and later S{} in the same transaction", ri, prev, j) });
+                                        js.push(Judgement { class: "reader_snapshot_changed".into(), detail: format!("reader {} saw {} and later {} in the same transaction", ri, name(prev), name(j)) });
                                     }
                                 }
                                 seen = Some(j);
@@ -361,33 +401,38 @@ fn c04_cases(tier: Tier) -> Vec<(C04Case, usize)> {
     // every chain of two commits x one reader
     for a in 0..nm {
         for b in 0..nm {
-            v.push((C04Case { fsync_fault: None, chain: vec![a, b], readers: 1, dumps: 2 }, if tier == Tier::Quick { 2 } else { 3 }));
+            v.push((C04Case { second: vec![], fsync_fault: None, chain: vec![a, b], readers: 1, dumps: 2 }, if tier == Tier::Quick { 2 } else { 3 }));
         }
     }
     // chains of three commits against one reader at two preemptions: a reader that begins in the
     // middle of the first commit and stays open across the next two
     if tier == Tier::Quick {
         for chain in [vec![0, 3, 5], vec![5, 2, 3], vec![1, 0, 2], vec![2, 5, 3]] {
-            v.push((C04Case { fsync_fault: None, chain, readers: 1, dumps: 2 }, 2));
+            v.push((C04Case { second: vec![], fsync_fault: None, chain, readers: 1, dumps: 2 }, 2));
         }
     }
     // a commit whose final sync fails in the middle of the chain, with a reader around
     for (chain, at) in [(vec![0, 3, 5], 0usize), (vec![5, 2, 3], 1), (vec![1, 0, 2], 0)] {
-        v.push((C04Case { fsync_fault: Some(at), chain, readers: 1, dumps: 2 }, 2));
+        v.push((C04Case { second: vec![], fsync_fault: Some(at), chain, readers: 1, dumps: 2 }, 2));
+    }
+    // two writer threads (commuting chains) and a reader: a writer that begins while the other is
+    // still inside its commit
+    for (chain, second) in [(vec![0, 2], vec![3]), (vec![5, 1], vec![4]), (vec![3], vec![2, 5])] {
+        v.push((C04Case { second, fsync_fault: None, chain, readers: 1, dumps: 2 }, 2));
     }
     // asymmetric chains of three, two readers
-    v.push((C04Case { fsync_fault: None, chain: vec![0, 3, 5], readers: 2, dumps: 2 }, if tier == Tier::Quick { 1 } else { 2 }));
-    v.push((C04Case { fsync_fault: None, chain: vec![5, 2, 3], readers: 2, dumps: 2 }, if tier == Tier::Quick { 1 } else { 2 }));
+    v.push((C04Case { second: vec![], fsync_fault: None, chain: vec![0, 3, 5], readers: 2, dumps: 2 }, if tier == Tier::Quick { 1 } else { 2 }));
+    v.push((C04Case { second: vec![], fsync_fault: None, chain: vec![5, 2, 3], readers: 2, dumps: 2 }, if tier == Tier::Quick { 1 } else { 2 }));
     if tier == Tier::Thorough {
         for a in 0..nm {
             for b in 0..nm {
                 for c in 0..nm {
-                    v.push((C04Case { fsync_fault: None, chain: vec![a, b, c], readers: 1, dumps: 2 }, 2));
+                    v.push((C04Case { second: vec![], fsync_fault: None, chain: vec![a, b, c], readers: 1, dumps: 2 }, 2));
                 }
             }
         }
-        v.push((C04Case { fsync_fault: None, chain: vec![0, 3, 5, 2], readers: 1, dumps: 3 }, 3));
-        v.push((C04Case { fsync_fault: None, chain: vec![3, 0, 2, 5], readers: 2, dumps: 2 }, 2));
+        v.push((C04Case { second: vec![], fsync_fault: None, chain: vec![0, 3, 5, 2], readers: 1, dumps: 3 }, 3));
+        v.push((C04Case { second: vec![], fsync_fault: None, chain: vec![3, 0, 2, 5], readers: 2, dumps: 2 }, 2));
     }
     v
 }
@@ -416,7 +461,7 @@ pub fn worker(idx: usize) {
         DEADLINE.with(|d| d.set(j["deadline"].as_u64()));
         emit(&format!("case {}", ci));
         match prop.as_str() {
-            "C04" => {
+            "C04" | "C03" => {
                 if c04_base.is_none() {
                     let cfg = Cfg { num_pages: 64, ..Cfg::default() };
                     match build_base(&path, &cfg, &c04_setup()) {
@@ -425,7 +470,7 @@ pub fn worker(idx: usize) {
                     }
                 }
                 let base = c04_base.as_ref().unwrap();
-                let cases = c04_cases(tier);
+                let cases = if prop == "C03" { c03_thread_cases(tier) } else { c04_cases(tier) };
                 let (case, bound) = &cases[ci];
                 explore_case(*bound, start, expand_only, max_sched, |prefix| c04_run(case, base, &path, prefix, policy))
             }
@@ -602,11 +647,40 @@ pub fn run(check: &mut Check, prop: &str, cases: Vec<CaseInfo>, policies: &[&str
     check.cov("worker_restarts", json!(pool.restarts));
 }
 
+/// The threaded supplement of C03: a reader on its own thread that may begin at any scheduling
+/// point of another thread's commit (which no single-threaded history can produce) and stays open
+/// across the following commits of the chain.
+fn c03_thread_cases(tier: Tier) -> Vec<(C04Case, usize)> {
+    let mut v = vec![];
+    for chain in [vec![0, 3, 5], vec![5, 2, 3], vec![1, 0, 2], vec![2, 5, 3], vec![3, 1, 4], vec![4, 4, 0]] {
+        v.push((C04Case { second: vec![], fsync_fault: None, chain, readers: 1, dumps: 2 }, 2));
+    }
+    v.push((C04Case { second: vec![], fsync_fault: None, chain: vec![0, 3, 5], readers: 2, dumps: 2 }, 1));
+    if tier == Tier::Thorough {
+        let nm = c04_menu().len();
+        for a in 0..nm {
+            for b in 0..nm {
+                v.push((C04Case { second: vec![], fsync_fault: None, chain: vec![a, b, (a + b + 1) % nm], readers: 1, dumps: 3 }, 2));
+            }
+        }
+        v.push((C04Case { second: vec![], fsync_fault: None, chain: vec![5, 2, 3, 0], readers: 2, dumps: 2 }, 2));
+    }
+    v
+}
+
+pub fn c03_thread_case_infos(tier: Tier) -> Vec<CaseInfo> {
+    case_infos(c03_thread_cases(tier))
+}
+
 pub fn c04_case_infos(tier: Tier) -> Vec<CaseInfo> {
+    case_infos(c04_cases(tier))
+}
+
+fn case_infos(cases: Vec<(C04Case, usize)>) -> Vec<CaseInfo> {
     let menu = c04_menu();
-    c04_cases(tier)
+    cases
         .iter()
-        .map(|(c, bound)| CaseInfo { label: format!("chain{:?}{}-r{}-c{}", c.chain, c.fsync_fault.map(|i| format!("-fsyncfail@{}", i)).unwrap_or_default(), c.readers, bound), describe: json!({"writer_chain": c.chain.iter().map(|&m| menu[m].iter().map(|o| o.to_json()).collect::<Vec<_>>()).collect::<Vec<_>>(), "readers": c.readers, "dumps_per_reader": c.dumps, "preemption_bound": bound}) })
+        .map(|(c, bound)| CaseInfo { label: format!("chain{:?}{}{}-r{}-c{}", c.chain, if c.second.is_empty() { String::new() } else { format!("+w2{:?}", c.second) }, c.fsync_fault.map(|i| format!("-fsyncfail@{}", i)).unwrap_or_default(), c.readers, bound), describe: json!({"writer_chain": c.chain.iter().map(|&m| menu[m].iter().map(|o| o.to_json()).collect::<Vec<_>>()).collect::<Vec<_>>(), "second_writer_chain": c.second, "readers": c.readers, "dumps_per_reader": c.dumps, "preemption_bound": bound}) })
         .collect()
 }
 
@@ -625,7 +699,7 @@ pub fn replay(v: &Value) -> i32 {
     let mut seen: Vec<String> = vec![];
     for round in 0..2 {
         let (res, js): (ExecResult, Vec<Judgement>) = match prop {
-            "C04" => {
+            "C04" | "C03" => {
                 let cfg = Cfg { num_pages: 64, ..Cfg::default() };
                 let base = match build_base(&path, &cfg, &c04_setup()) {
                     Ok(b) => b,
@@ -634,7 +708,7 @@ pub fn replay(v: &Value) -> i32 {
                         return 2;
                     }
                 };
-                let cases = c04_cases(tier);
+                let cases = if prop == "C03" { c03_thread_cases(tier) } else { c04_cases(tier) };
                 let (r, j, _) = c04_run(&cases[ci].0, &base, &path, &prefix, policy);
                 (r, j)
             }
